@@ -25,7 +25,8 @@ Record inv (R : step_rel) (src : chip) (w h : Z) (route : list chip) (t : rtree)
   inv_nodup : NoDup (chips t);
   inv_route : forall x, In x (chips t) <-> In x route;
   inv_hops : forall p r c, In (p, r, c) (tree_hops t) -> exists l, r = Some l /\ R p l c;
-  inv_range : forall x, In x route -> in_range w h x }.
+  inv_range : forall x, In x route -> in_range w h x;
+  inv_noleaves : forall e, ~ In e (tree_leaves t) }.
 
 Lemma occ_single : forall x c, occ x (RNode c []) = if chip_eq_dec c x then 1%nat else 0%nat.
 Proof. intros x c. rewrite occ_node. simpl. lia. Qed.
@@ -36,7 +37,7 @@ Lemma inv_attach : forall (R : step_rel) src w h route t last d c,
     inv R src w h (dict_add c route) (attach last (Some d, RNode c []) t).
 Proof.
   intros R src w h route t last d c I Hlast Hc Hr Hadj.
-  destruct I as [Iroot Ind Iroute Ihops Irange].
+  destruct I as [Iroot Ind Iroute Ihops Irange Inl].
   assert (Hocc : forall x, occ x (attach last (Some d, RNode c []) t) =
                            (occ x t + (if chip_eq_dec c x then 1 else 0))%nat).
   { intros x. rewrite occ_attach. simpl snd. rewrite occ_single.
@@ -60,6 +61,7 @@ Proof.
     + apply Ihops. exact Hin.
     + inversion Hin; subst. exists d. split; [reflexivity | exact Hadj].
   - intros x Hx. apply dict_add_in in Hx. destruct Hx as [Hx|Hx]; [apply Irange; exact Hx | subst; exact Hr].
+  - intros e He. apply leaves_attach_node in He. exact (Inl e He).
 Qed.
 
 Lemma attach_chain_inv : forall (R : step_rel) src w h path last route t,
@@ -249,7 +251,8 @@ Theorem ner_net_tree_gen : forall (R : step_rel) src dests w h wrap radius s SOK
       /\ (forall p r c, In (p, r, c) (tree_hops t) -> exists l, r = Some l /\ R p l c)
       /\ (forall d, In d dests -> In d (chips t))
       /\ (forall x, In x (chips t) <-> In x route)
-      /\ (forall x, In x (chips t) -> in_range w h x).
+      /\ (forall x, In x (chips t) -> in_range w h x)
+      /\ (forall e, ~ In e (tree_leaves t)).
 Proof.
   intros R src dests w h wrap radius s SOK G Hsrc Hd Hs. unfold ner_net.
   assert (I0 : inv R src w h [src] (RNode src [])).
@@ -258,16 +261,17 @@ Proof.
     - constructor; [intros []|constructor].
     - intros x. tauto.
     - intros p r c [].
-    - intros x [Hx|[]]. subst. exact Hsrc. }
+    - intros x [Hx|[]]. subst. exact Hsrc.
+    - intros e []. }
   assert (Hd' : Forall (in_range w h) (sort_dests wrap w h src dests)).
   { apply Forall_forall. intros x Hx. apply sort_dests_in in Hx. rewrite Forall_forall in Hd. apply Hd. exact Hx. }
   destruct (ner_dests_ok R src w h wrap radius (concentric_hexagons radius (0, 0)) SOK
                          (sort_dests wrap w h src dests) [src] (RNode src []) s G I0 Hd' Hs)
     as [route [t [s' [E [I [_ Hin]]]]]].
   exists t, route. rewrite E. cbn [bind]. split; [reflexivity|].
-  destruct I as [Iroot Ind Iroute Ihops Irange].
+  destruct I as [Iroot Ind Iroute Ihops Irange Inl].
   split; [exact Iroot|]. split; [exact Ind|]. split; [exact Ihops|].
   split; [intros d Hd0; apply Iroute; apply Hin; apply sort_dests_in; exact Hd0|].
   split; [exact Iroute|].
-  intros x Hx. apply Irange. apply Iroute. exact Hx.
+  split; [intros x Hx; apply Irange; apply Iroute; exact Hx | exact Inl].
 Qed.
